@@ -4,6 +4,7 @@ CONSTANTS
   Types = {"A", "B"}
   MaxCalls = 2
   EarlyUnlock = FALSE
+  Registry = FALSE
   Locked = FALSE
 INVARIANTS PublishedComplete OneEntryPerType UsesOwnCompleteCodec MutexHeldByBuilder NoLossWhenLocked IdentityStableWhenLocked
 PROPERTIES MapsImmutable
